@@ -59,6 +59,7 @@ type channel struct {
 	cancelStream    context.CancelFunc
 	responseRouters map[uint64]responseRouter
 	responseMut     sync.Mutex
+	streamUp        chan struct{} // signalled when the stream has been (re-)established
 }
 
 // newChannel creates a new channel for the given node and starts the sending goroutine.
@@ -75,6 +76,7 @@ func newChannel(n *RawNode) *channel {
 		latency:         -1 * time.Second,
 		rand:            rand.New(rand.NewSource(time.Now().UnixNano())),
 		responseRouters: make(map[uint64]responseRouter),
+		streamUp:        make(chan struct{}, 1),
 	}
 	// parentCtx controls the channel and is used to shut it down
 	c.parentCtx = n.newContext()
@@ -371,6 +373,11 @@ func (c *channel) reconnect(maxRetries float64) {
 			c.gorumsStream = stream
 			c.streamBroken.clear()
 			c.streamMut.Unlock()
+			// wake up the other goroutine if it is waiting out a backoff delay
+			select {
+			case c.streamUp <- struct{}{}:
+			default:
+			}
 			return
 		}
 		c.cancelStream()
@@ -394,6 +401,9 @@ func (c *channel) reconnect(maxRetries float64) {
 		select {
 		case <-time.After(time.Duration(delay)):
 			retries++
+		case <-c.streamUp:
+			// the stream may have been re-established by the other goroutine; replies
+			// on it must not wait for the backoff delay. The state is checked again above.
 		case <-c.parentCtx.Done():
 			return
 		}
